@@ -384,6 +384,12 @@ func runC15(c *h.Ctx) {
 		for k, v := range files {
 			includes[k] = v
 		}
+		if cs.R.Chance(30) {
+			// the same includes map served an earlier version of the main file: what counts is the content passed now
+			delete(includes, "verif.proto")
+			opts.NewDesccriptorFromContent(context.Background(), "verif.proto", "syntax = \"proto3\";\nmessage Old { int32 a = 1; }\nservice OldSvc { rpc OldCall(Old) returns (Old); }\n", includes)
+			cs.Cover("includes_map_reused_for_a_new_version")
+		}
 		svc, err := opts.NewDesccriptorFromContent(context.Background(), "verif.proto", text, includes)
 		if err != nil {
 			cs.Viol("desc:parse-error-on-valid-schema", "err", err)
